@@ -68,6 +68,16 @@ func (c *Ctx) execCall(st *State, fr *Frame, instr ssa.Instruction, call *ssa.Ca
 		}
 		se := &SpecEnv{c: c, st: st, vars: env, pkg: c.pkgOfFrame(fr), old: fr.entry, fr: fr, internal: true}
 		for _, cl := range bcs {
+			if cl.IfLocal != "" {
+				if _, ok := st.vars[c.frameVarKey(fr, cl.IfLocal)]; !ok {
+					continue
+				}
+			}
+			if cl.IfNotLocal != "" {
+				if _, ok := st.vars[c.frameVarKey(fr, cl.IfNotLocal)]; ok {
+					continue
+				}
+			}
 			for _, cj := range se.splitConjuncts(cl.E, 0) {
 				g, unresolved := c.proveAtReturn(se, cj)
 				if unresolved != "" {
@@ -87,6 +97,28 @@ func (c *Ctx) execCall(st *State, fr *Frame, instr ssa.Instruction, call *ssa.Ca
 				}
 				c.oblige(st, fr, instr, "assert-before:"+cl.Callee, "at the call of "+cl.Callee+": "+cj.String(), g, cl, cl.Tags)
 			}
+		}
+	}
+	if lets := c.callClausesNoWith(fr, call, "afterlet"); len(lets) > 0 {
+		kPrev := k
+		pre := st.snap()
+		k = func(st2 *State, results []T) {
+			envA := map[string]T{}
+			for kk, vv := range fr.env {
+				envA[kk] = vv
+			}
+			for i, r := range results {
+				envA[fmt.Sprintf("result%d", i)] = r
+			}
+			if len(results) > 0 {
+				envA["result"] = results[0]
+			}
+			se := &SpecEnv{c: c, st: st2, vars: envA, pkg: c.pkgOfFrame(fr), old: pre, fr: fr, internal: true}
+			for _, cl := range lets {
+				v := se.eval(cl.E)
+				st2.vars[c.frameVarKey(fr, cl.With)] = varBinding{val: v, ty: v.Ty}
+			}
+			kPrev(st2, results)
 		}
 	}
 	if acs := c.afterClauses(fr, call); len(acs) > 0 {
@@ -461,7 +493,21 @@ func (c *Ctx) applyContract(st *State, fr *Frame, instr ssa.Instruction, ct *Con
 	if !hasAssigns {
 		star = true
 	}
+	// objects directly referenced by the arguments are the callee's own (its "assigns foreign" was
+	// proved, or is assumed, not to touch them unless they are listed explicitly)
+	c.callArgRoots = nil
+	{
+		ai := 0
+		if recv == nil && sig.Recv() != nil && len(args) > 0 {
+			c.callArgRoots = append(c.callArgRoots, c.pointerRoots(args[0].S, sig.Recv().Type(), 0)...)
+			ai = 1
+		}
+		for i := 0; i < sig.Params().Len() && ai+i < len(args); i++ {
+			c.callArgRoots = append(c.callArgRoots, c.pointerRoots(args[ai+i].S, sig.Params().At(i).Type(), 0)...)
+		}
+	}
 	c.havocLocs(st, pre, locs, star, pre.heapTop, noalloc)
+	c.callArgRoots = nil
 	se2 := &SpecEnv{c: c, st: st, vars: env, pkg: ct.Pkg, old: pre}
 	for _, cl := range ct.Clauses {
 		if cl.Kind != "ensures" {
@@ -781,6 +827,8 @@ func (c *Ctx) frameCheckCall(st *State, fr *Frame, instr ssa.Instruction, name s
 			switch l.OwnerSort {
 			case "Iface":
 				ds = append(ds, "(> (root (ipay "+l.Idx+")) "+c.h0+")")
+				// the ghost state of the nil interface value is not observable
+				ds = append(ds, "(= "+l.Idx+" nil_iface)")
 			case "Addr":
 				ds = append(ds, "(> (root "+l.Idx+") "+c.h0+")")
 			}
@@ -1188,6 +1236,13 @@ func (c *Ctx) afterClauses(fr *Frame, call *ssa.CallCommon) []*Clause {
 	return c.callClauses(fr, call, "aftercall")
 }
 
+// callClausesNoWith: like callClauses for clause kinds whose With field is not a closure name.
+func (c *Ctx) callClausesNoWith(fr *Frame, call *ssa.CallCommon, kind string) []*Clause {
+	c.ignoreWith = true
+	defer func() { c.ignoreWith = false }()
+	return c.callClauses(fr, call, kind)
+}
+
 func (c *Ctx) callClauses(fr *Frame, call *ssa.CallCommon, kind string) []*Clause {
 	ct := fr.contract
 	if ct == nil {
@@ -1201,30 +1256,18 @@ func (c *Ctx) callClauses(fr *Frame, call *ssa.CallCommon, kind string) []*Claus
 		return nil
 	}
 	var out []*Clause
+	name := callSiteName(call)
 	for _, cl := range ct.Clauses {
 		if cl.Kind != kind {
 			continue
 		}
-		name := ""
-		if call.IsInvoke() {
-			name = call.Method.Name()
-		} else if sc := call.StaticCallee(); sc != nil {
-			name = funcPkgPath(sc) + "." + relFuncName(sc)
-		} else if p, ok := call.Value.(*ssa.Parameter); ok {
-			name = p.Name()
-		} else if ld, ok := call.Value.(*ssa.UnOp); ok {
-			if fa, ok := ld.X.(*ssa.FieldAddr); ok {
-				if pt, ok := fa.X.Type().Underlying().(*types.Pointer); ok {
-					if stt, ok := pt.Elem().Underlying().(*types.Struct); ok {
-						name = stt.Field(fa.Field).Name()
-					}
-				}
-			}
-		}
 		if !strings.HasSuffix(name, cl.Callee) {
 			continue
 		}
-		if cl.With != "" {
+		if cl.Site >= 0 && siteOrdinal(fr.fn, call, cl.Callee) != cl.Site {
+			continue
+		}
+		if cl.With != "" && !c.ignoreWith {
 			found := false
 			for _, a := range call.Args {
 				if mc, ok := a.(*ssa.MakeClosure); ok && relFuncName(mc.Fn.(*ssa.Function)) == cl.With {
@@ -1238,6 +1281,44 @@ func (c *Ctx) callClauses(fr *Frame, call *ssa.CallCommon, kind string) []*Claus
 		out = append(out, cl)
 	}
 	return out
+}
+
+// callSiteName: the name under which before/after clauses refer to the callee of a call.
+func callSiteName(call *ssa.CallCommon) string {
+	if call.IsInvoke() {
+		return call.Method.Name()
+	} else if sc := call.StaticCallee(); sc != nil {
+		return funcPkgPath(sc) + "." + relFuncName(sc)
+	} else if p, ok := call.Value.(*ssa.Parameter); ok {
+		return p.Name()
+	} else if ld, ok := call.Value.(*ssa.UnOp); ok {
+		if fa, ok := ld.X.(*ssa.FieldAddr); ok {
+			if pt, ok := fa.X.Type().Underlying().(*types.Pointer); ok {
+				if stt, ok := pt.Elem().Underlying().(*types.Struct); ok {
+					return stt.Field(fa.Field).Name()
+				}
+			}
+		}
+	}
+	return ""
+}
+
+// siteOrdinal: position (in source order, from 0) of this call among the calls of fn whose callee
+// name ends in suffix.
+func siteOrdinal(fn *ssa.Function, call *ssa.CallCommon, suffix string) int {
+	n := 0
+	for _, b := range fn.Blocks {
+		for _, in := range b.Instrs {
+			ci, ok := in.(ssa.CallInstruction)
+			if !ok || ci.Common() == call {
+				continue
+			}
+			if strings.HasSuffix(callSiteName(ci.Common()), suffix) && ci.Pos() < call.Pos() {
+				n++
+			}
+		}
+	}
+	return n
 }
 
 // havocForeign: the callee may write any memory except objects that belong to the function under
@@ -1257,6 +1338,7 @@ func (c *Ctx) havocForeign(st *State, locs []Loc) {
 			prot = append(prot, c.pointerRoots(t.S, fv.Type(), 0)...)
 		}
 	}
+	prot = append(prot, c.callArgRoots...)
 	// Objects allocated by the function under verification are NOT protected: once their address has
 	// been handed to other code (stored, passed, boxed) foreign code may legitimately write them (e.g.
 	// a parse context object updated through a callback); those whose address never escapes live in
